@@ -178,7 +178,10 @@ func recoverInterruptedRewrites(path string) error {
 				continue
 			}
 			base := strings.TrimSuffix(file.Name(), logFileSuffix+suffix)
-			for _, name := range []string{file.Name(), base + indexFileSuffix + suffix} {
+			// The index goes first: a crash between the two removals must leave
+			// the rewritten log behind, which is discarded again, and not a lone
+			// rewritten index, which would be taken for a replacement to complete.
+			for _, name := range []string{base + indexFileSuffix + suffix, file.Name()} {
 				if err := os.Remove(filepath.Join(path, name)); err != nil && !os.IsNotExist(err) {
 					return errors.Wrap(err, "failed to remove leftover segment file")
 				}
